@@ -56,8 +56,8 @@ theorem impsBody_exec (d : Int) (k f : Nat) (hk : k < ts.length) :
   have ht := impsTest_eval P ts hg d k (f + 1) hk
   simp only [mkRec_exec, impsBody, execF, execStmtF, ht, bind, Except.bind, truthy]
   by_cases h : (d.natAbs : Int) < ts[k]
-  · simp [h, mkRec_exec, execF, execStmtF, bind, Except.bind, pure, Except.pure]
-  · simp [h, mkRec_exec, mkRec_eval, execF, execStmtF, evalF, assignToF, binopVal, asInt?, bind, Except.bind, pure,
+  · simp [h, pure, Except.pure]
+  · simp [h, mkRec_eval, evalF, assignToF, binopVal, asInt?, bind, Except.bind, pure,
       Except.pure, impsEnv, lookup, update, n_imps, n_win, n_point_difference]
 
 /-- THE LOOP INVARIANT: entered with `imps = k` (and `24 - k` turns left at most), the loop ends with
@@ -87,9 +87,59 @@ theorem impsLoop (hlen : ts.length = 24) (d : Int) :
     have hlt : (k : Int) < 24 := by omega
     rw [hd, impScan, mkRec_loop]
     by_cases h : (d.natAbs : Int) < ts[k]
-    · simp [loopF, hc, hb, h, hlt, bind, Except.bind, truthy]
+    · simp [loopF, hc, hb, h, hlt, bind, Except.bind, pure, Except.pure, truthy]
     · simp [loopF, hc, hb, h, hlt, hl, bind, Except.bind, truthy]
 
+/-- the whole body of `point_difference_to_imps`, called with `d` -/
+theorem impsCall (hlen : ts.length = 24) (d : Int) (f : Nat) (hf : 40 ≤ f) :
+    (mkRec P f).call f_point_difference_to_imps [.int d]
+      = .ok (.int (if 0 ≤ d then (impScan (d.natAbs : Int) ts 0 : Int) else -(impScan (d.natAbs : Int) ts 0 : Int)),
+             .int d) := by
+  obtain ⟨g, rfl⟩ : ∃ g, f = g + 40 := ⟨f - 40, by omega⟩
+  have hl : (mkRec P (g + 38)).loop [(n_point_difference, .int d), (n_win, .bool (decide (0 ≤ d))), (n_imps, .int 0)]
+      impsCond impsBody = .ok (impsEnv d (impScan (d.natAbs : Int) ts 0), .next) := by
+    simpa [impsEnv] using impsLoop P ts hg hlen d 24 0 (g + 38) (by omega) (by omega)
+  simp only [impsCond, impsBody, impsTest] at hl
+  rw [mkRec_call]
+  simp [callF, f_point_difference_to_imps, bindParams, mkRec_exec, mkRec_eval, execF, execStmtF, evalF, assignToF,
+    cmpF, compareF, asInt?, lookup, update, n_imps, n_win, n_point_difference, bind, Except.bind, pure, Except.pure]
+  rw [hl]
+  by_cases h : 0 ≤ d
+  · simp [h, impsEnv, lookup, truthy, n_imps, n_win, n_point_difference]
+  · simp [h, impsEnv, lookup, truthy, n_imps, n_win, n_point_difference]
+
+/-- the body of `score_to_imp`: the nested call runs with less fuel than the caller -/
+theorem scoreToImpCall (hfn : findFunc P.funcs n_point_difference_to_imps = some f_point_difference_to_imps)
+    (hlen : ts.length = 24) (a b : Int) (f : Nat) (hf : 50 ≤ f) :
+    (mkRec P f).call f_score_to_imp [.int a, .int b]
+      = .ok (.int (if 0 ≤ a + b then (impScan ((a + b).natAbs : Int) ts 0 : Int)
+                    else -(impScan ((a + b).natAbs : Int) ts 0 : Int)), .int a) := by
+  obtain ⟨g, rfl⟩ : ∃ g, f = g + 50 := ⟨f - 50, by omega⟩
+  have hc := impsCall P ts hg hlen (a + b) (g + 47) (by omega)
+  rw [mkRec_call]
+  simp [callF, f_score_to_imp, bindParams, mkRec_exec, mkRec_eval, execF, execStmtF, evalF, mapR, binopVal, asInt?,
+    lookup, n_first_score, n_second_score, hfn, hc, bind, Except.bind, pure, Except.pure]
+
 end loop
+
+/-! ## the translated program -/
+
+theorem imps_global : lookup P.globals n__IMPS_LIST = some (.tuple (IMPS_LIST.map Val.int)) := rfl
+theorem imps_length : IMPS_LIST.length = 24 := rfl
+theorem imps_func : findFunc P.funcs n_point_difference_to_imps = some f_point_difference_to_imps := rfl
+theorem score_to_imp_func : findFunc P.funcs n_score_to_imp = some f_score_to_imp := rfl
+
+/-- THE TRANSLATED `point_difference_to_imps` computes what the model computes, for EVERY integer -/
+theorem point_difference_to_imps_translated (d : Int) :
+    (fn n_point_difference_to_imps [.int d]).int? = some (pointDifferenceToImps d) := by
+  have h := impsCall P IMPS_LIST imps_global imps_length d topFuel (by decide)
+  simp only [fn, Program.runFn, imps_func, callFn, h, Except.map, R.int?, pointDifferenceToImps, ge_iff_le]
+
+/-- THE TRANSLATED `score_to_imp` -/
+theorem score_to_imp_translated (a b : Int) :
+    (fn n_score_to_imp [.int a, .int b]).int? = some (scoreToImp a b) := by
+  have h := scoreToImpCall P IMPS_LIST imps_global imps_func imps_length a b topFuel (by decide)
+  simp only [fn, Program.runFn, score_to_imp_func, callFn, h, Except.map, R.int?, scoreToImp, pointDifferenceToImps,
+    ge_iff_le]
 
 end Bridge.Translated
